@@ -77,3 +77,27 @@ def _fix_ch_bug():
 
 
 _fix_ch_bug()
+
+
+def _fix_concat_eq():
+    # Engine bug: SequenceConcatenation.__eq__ compares `second == other[firstlen:]`, which is False
+    # when `second` is an empty list and the other side an empty symbolic tuple -- e.g.
+    # (s + "\n")[:-1] == s came out False.  Compare element-wise instead.
+    from crosshair import simplestructs as ss
+
+    def eq(self, other):
+        if not hasattr(other, "__len__"):
+            return False
+        if self.__len__() != other.__len__():
+            return False
+        i = 0
+        for a in self:
+            if a != other[i]:
+                return False
+            i += 1
+        return True
+
+    ss.SequenceConcatenation.__eq__ = eq
+
+
+_fix_concat_eq()
